@@ -545,6 +545,9 @@ def check_case(ctx, drv, case):
     try:
         n_y = len(t1.routine["yields"]) if t1.routine else 0
         burn, blocks = split_steps(t1, case["burn"], case["thin"], n_y)
+        if r1["exc"] is None and (len(burn) != case["burn"] or any(len(b) != case["thin"] for b in blocks)):
+            raise BadTrace(f"{len(burn)} steps before the first block and blocks of {[len(b) for b in blocks]} steps, "
+                           f"expected burn_in_steps={case['burn']} and intermediate_steps={case['thin']} per sample")
         n_out = len(r1["out"])
         weights = []
         for wl in t1.weights:
